@@ -2,8 +2,9 @@ from pyvc.runner import Property, StandIn
 import contracts.all  # noqa
 import contracts.standins_multirun as B
 import contracts.multirun as MR
+import contracts.getiter as GI
 
-PROVED = [MR.multi_run]
+PROVED = [MR.multi_run, GI.get_iter]
 
 PROPERTY = Property(
     "C15", "proof",
